@@ -269,15 +269,16 @@ def _loop_returns_to_breaks(stmts, target):
     return out
 
 
-def _find_class(loader, rp, name, depth=0):
-    """(relpath, ClassDef) of class `name` as seen from module rp, following `from .x import name` / `from .x import *` re-exports"""
+def _find_class(loader, rp, name, depth=0, kind=ast.ClassDef):
+    """(relpath, def) of class (or function, kind=ast.FunctionDef) `name` as seen from module rp, following `from .x import name` /
+    `from .x import *` re-exports"""
     if depth > 3:
         return None
     tree = loader(rp)
     if tree is None:
         return None
     for ch in tree.body:
-        if isinstance(ch, ast.ClassDef) and ch.name == name:
+        if isinstance(ch, kind) and ch.name == name:
             return rp, ch
     for st in tree.body:
         if isinstance(st, ast.ImportFrom) and any(a.name in ('*', name) for a in st.names):
@@ -291,7 +292,7 @@ def _find_class(loader, rp, name, depth=0):
             else:
                 continue
             for rp2 in (mp + '.py', mp + '/__init__.py'):
-                r = _find_class(loader, rp2, name, depth + 1)
+                r = _find_class(loader, rp2, name, depth + 1, kind)
                 if r is not None:
                     return r
     return None
@@ -377,7 +378,12 @@ class Inliner:
                                                     self.skipped.append((mth.name, str(e)))
                         if al.name == '*' or al.name[:1].isupper() or ('f', al.asname or al.name) in self.new:
                             continue
-                        for rp in cand:
+                        cand2 = []
+                        for rp_ in cand:
+                            fd_ = _find_class(loader, rp_, al.name, kind=ast.FunctionDef)
+                            if fd_ is not None and fd_[0] not in cand2:
+                                cand2.append(fd_[0])
+                        for rp in cand2 or cand:
                             rf = ref_functions().get(rp)
                             if rf is None or al.name in rf:
                                 continue
